@@ -28,15 +28,26 @@ func runWipe(env *execenv.Env) error {
 	}
 
 	env.Out.Println("cleaning git config ...")
-	err = env.Backend.ClearUserIdentity()
+	// Config.RemoveAll fails when nothing matches: only remove what is there
+	configs, err := env.Backend.LocalConfig().ReadAll("git-bug")
 	if err != nil {
 		_ = env.Backend.Close()
 		return err
 	}
-	err = env.Backend.LocalConfig().RemoveAll("git-bug")
-	if err != nil {
-		_ = env.Backend.Close()
-		return err
+	if _, ok := configs["git-bug.identity"]; ok {
+		err = env.Backend.ClearUserIdentity()
+		if err != nil {
+			_ = env.Backend.Close()
+			return err
+		}
+		delete(configs, "git-bug.identity")
+	}
+	if len(configs) > 0 {
+		err = env.Backend.LocalConfig().RemoveAll("git-bug")
+		if err != nil {
+			_ = env.Backend.Close()
+			return err
+		}
 	}
 
 	storage := env.Backend.LocalStorage()
